@@ -34,7 +34,9 @@ def _array(v, dtype=None):
             j = z3.Int(ctx().fresh("j"))
             return SymArr(v.n, z3.Lambda([j], z3.ToReal(z3.Select(v.arr, j))), "real")
         if dtype is int and v.sort == "real":
-            raise Unsupported("np.array(real symbolic array, dtype=int)")
+            j = z3.Int(ctx().fresh("j"))
+            x = z3.Select(v.arr, j)
+            return SymArr(v.n, z3.Lambda([j], z3.If(x >= 0, z3.ToInt(x), -z3.ToInt(-x))), "int")
         return SymArr(v.n, v.arr, v.sort)
     if isinstance(v, GenList):
         return _genlist_to_array(v, dtype)
